@@ -99,7 +99,10 @@ def upload_templates(ctx):
     f = 'COSdoUploadSegmented'
     for tb in (0, 1):
         for ft in (0, 1):
-            for (size, num) in ((20, 0), (20, 14), (20, 13), (7, 0), (8, 7), (3, 0)):
+            pairs = [(20, 0), (20, 14), (20, 13), (7, 0), (8, 7), (3, 0), (15, 7), (21, 7), (300, 44), (300, 37), (263, 0), (600, 338), (0x10006, 0)]
+            if getattr(ctx, 'tier', 'quick') == 'thorough':
+                pairs = sorted(set(pairs + [(600, 600 - r) for r in range(1, 300)]))
+            for (size, num) in pairs:
                 trs = _run(m, f, {'srv->Obj': 1, 'srv->Frm->Data[0]': 0x60 | (ft << 4), 'srv->Seg.TBit': tb, 'srv->Seg.Size': size,
                                   'srv->Seg.Num': num, 'call:COObjRdBufCont': NONE, 'srv->Buf.Start': 0x5000}, filt=FRM)
                 site = 'upload segment toggle exp=%d got=%d size=%d sent=%d' % (tb, ft, size, num)
@@ -244,11 +247,15 @@ def download_templates(ctx):
     f = 'COSdoDownloadSegmented'
     for tb in (0, 1):
         for ft in (0, 1):
-            for (n, last) in ((0, 0), (3, 1), (0, 1)):
+            classes = [(0, 0, 20, 7), (3, 1, 20, 7), (0, 1, 20, 7), (0, 0, 20, 14), (0, 0, 256, 0), (0, 0, 257, 0), (0, 0, 262, 0), (0, 0, 263, 0),
+                       (0, 0, 515, 0), (0, 0, 300, 7), (0, 0, 0x10003, 0), (0, 1, 600, 594), (1, 1, 600, 594)]
+            if getattr(ctx, 'tier', 'quick') == 'thorough':
+                classes += [(0, 0, 1000, 1000 - r) for r in range(1, 600)] + [(n_, 1, 20, 14) for n_ in range(1, 7)]
+            for (n, last, size_, num_) in classes:
                 cmd = (ft << 4) | (n << 1) | last
-                trs = _run(m, f, {'srv->Obj': 1, 'srv->Frm->Data[0]': cmd, 'srv->Seg.TBit': tb, 'srv->Seg.Size': 20, 'srv->Seg.Num': 7,
+                trs = _run(m, f, {'srv->Obj': 1, 'srv->Frm->Data[0]': cmd, 'srv->Seg.TBit': tb, 'srv->Seg.Size': size_, 'srv->Seg.Num': num_,
                                   'srv->Buf.Num': 0, 'srv->Buf.Start': 0x5000, 'call:COObjWrBufCont': NONE}, filt=FRM)
-                site = 'download segment toggle exp=%d got=%d n=%d last=%d' % (tb, ft, n, last)
+                site = 'download segment toggle exp=%d got=%d n=%d last=%d size=%d received=%d' % (tb, ft, n, last, size_, num_)
                 bad = None
                 for t in trs:
                     fr = _frame(t)
@@ -260,7 +267,9 @@ def download_templates(ctx):
                             bad = 'toggle error: aborts %s, object written %d times, buffer/toggle changed: %s' % (
                                 [hex(a) for a in ab], len(wr), sorted(k for k in st if 'Buf' in k or 'TBit' in k))
                         continue
-                    nb = 7 - n
+                    nb = (7 - n) if n else min(7, size_ - num_)
+                    if nb <= 4 and not last:
+                        continue          # short non-final segment: refused by the handler (general error), not a template row
                     if fr.get(0) != (0x20 | (tb << 4)):
                         bad = 'response %s, required %02Xh' % (fr.get(0), 0x20 | (tb << 4))
                     elif not wr or wr[0][2][3] != nb:
